@@ -42,9 +42,15 @@ def main():
                 q = un(o_, q, *rng.choice(IVS)) if o_ in UN_TIMED else un(o_, q)
             phi = q if rng.random() < 0.6 else bi("implies", q, pred("ge", var(v0), const(thr[v0] + 5)))
             N = rng.choice([3, 4, 5])
+        if rng.random() < 0.12:
+            # rise / fall of a polarity-sensitive operand (the operand is explained at t and, with the opposite polarity, at t-1)
+            q = bi(rng.choice(["and", "or", "implies"]), atom(), atom()) if rng.random() < 0.7 else un(rng.choice(["alwT", "evT", "onceT"]), atom(), *rng.choice(IVS))
+            q = un(rng.choice(["rise", "fall"]), q)
+            phi = rng.choice([q, un("not", q), un("evT", q, 0, rng.choice([1, 2, 3])), un("alwT", q, 0, rng.choice([1, 2])), un("next", q)])
+            N = rng.choice([2, 3, 4])
         vs_used = vars_of(phi)
         if len(vs_used) * N > 6:
-            N = 3
+            N = 3 if len(vs_used) > 1 else N
         # half of the traces stay on one side of the threshold (temporal formulas are then uniformly violated /
         # satisfied and every operand sample matters), the others wander around it
         w = {}
@@ -52,7 +58,15 @@ def main():
             side = rng.choice([None, None, -1, 1])
             w[v] = [thr[v] + (rng.choice([-1, 0, 1]) if side is None or rng.random() < 0.15 else side) for _ in range(N)]
         o = dt_obj(phi, 1, vs_used, factory="StlDiscreteTimeOfflineSpecification")
-        cases.append(case([o], [ev_parse(), ev_evaluate(range(N), w), {"o": 1, "a": "explain"}], skip=["evaluate.viol"]))
+        evs = [ev_parse(), ev_evaluate(range(N), w), {"o": 1, "a": "explain"}]
+        if rng.random() < 0.25:
+            # the same object evaluates and explains a second (and third) trace: nothing of the earlier report may survive
+            for _ in range(rng.choice([1, 2])):
+                w2 = {v: [thr[v] + rng.choice([-1, 0, 1]) * rng.choice([1, 1, 2]) for _ in range(N)] for v in vs_used}
+                if rng.random() < 0.5:
+                    w2 = {v: [thr[v] + rng.choice([1, -1])] * N for v in vs_used}     # uniformly on one side: often satisfied
+                evs += [ev_evaluate(range(N), w2), {"o": 1, "a": "explain"}]
+        cases.append(case([o], evs, skip=["evaluate.viol"]))
     traces = runner.run_cases(cases)
     vs_, gen, dist = core.validate("C20", traces, batch=60)
     rep.add_traces(traces, vs_, gen, dist, nontrivial_key=lambda c: c["objs"][0]["text"] + str(c["events"][1]["w"]))
